@@ -9,13 +9,14 @@ CONSTANTS
   InitStamps = {0}
   NoDefault = {"p1"}
   InitScopeSets = {{}, {"all"}}
-  ActScopes = {"all", "p1"}
+  ActScopes = {"all"}
   MaxNow = 6
   Depth = 3
   FullParams = {"p1"}
   LiteParams = {"p2"}
   GenConns = {"c2"}
   GenDefaults = {"a"}
+  GenLiteOmit = {2}
 CONSTRAINT Bound
 INVARIANT EmitMax
 CHECK_DEADLOCK FALSE
